@@ -522,6 +522,55 @@ def rule_hit_test_every_branch(ctx: Ctx) -> RuleResult:
     return rr
 
 
+def rule_visible_order(ctx: Ctx) -> RuleResult:
+    """ListBox.calculate_visible() reports the widgets above the focus *bottom-up* (nearest to the focus first) and
+    those below top-down.  Every consumer that lays the three parts out in screen order - one sequence of
+    fill_above, the focus, fill_below: a list display with both starred, or one accumulator filled in a loop over
+    fill_above and in a loop over fill_below - has to turn fill_above round first (`.reverse()` / reversed()).
+    render() does; a consumer that does not (mouse_event) sends the event to a child that is not drawn on the
+    clicked row as soon as two children are above the focus."""
+    p = ctx.p
+    rr = RuleResult("SIB", "C09.16", "every ListBox method that lays out fill_above, the focus and fill_below in screen order reverses the bottom-up fill_above first", floor=2)
+    cls = p.cls("urwid.widget.listbox.ListBox")
+    for fi in cls.methods.values():
+        vis = [n.targets[0] for n in fi.own_nodes() if isinstance(n, ast.Assign) and isinstance(n.value, ast.Call) and isinstance(n.value.func, ast.Attribute) and n.value.func.attr == "calculate_visible" and isinstance(n.targets[0], ast.Tuple) and len(n.targets[0].elts) == 3 and all(isinstance(e, ast.Name) for e in n.targets[0].elts)]
+        if not vis:
+            continue
+        top_name, bottom_name = vis[0].elts[1].id, vis[0].elts[2].id
+        above = {t.elts[1].id for n in fi.own_nodes() if isinstance(n, ast.Assign) and isinstance(n.value, ast.Name) and n.value.id == top_name and isinstance(n.targets[0], ast.Tuple) and len(n.targets[0].elts) == 2 for t in [n.targets[0]] if isinstance(t.elts[1], ast.Name)}
+        below = {t.elts[1].id for n in fi.own_nodes() if isinstance(n, ast.Assign) and isinstance(n.value, ast.Name) and n.value.id == bottom_name and isinstance(n.targets[0], ast.Tuple) and len(n.targets[0].elts) == 2 for t in [n.targets[0]] if isinstance(t.elts[1], ast.Name)}
+        if not above or not below:
+            continue
+        A, B = sorted(above)[0], sorted(below)[0]
+        uses = []
+        for n in fi.own_nodes():
+            if isinstance(n, (ast.List, ast.Tuple)):
+                st = [e.value.id for e in n.elts if isinstance(e, ast.Starred) and isinstance(e.value, ast.Name)]
+                if A in st and B in st:
+                    uses.append(n)
+        loopsA = [n for n in fi.own_nodes() if isinstance(n, ast.For) and isinstance(n.iter, ast.Name) and n.iter.id == A]
+        loopsB = [n for n in fi.own_nodes() if isinstance(n, ast.For) and isinstance(n.iter, ast.Name) and n.iter.id == B]
+
+        def appended(lp):
+            return {c.func.value.id for c in ast.walk(lp) if isinstance(c, ast.Call) and isinstance(c.func, ast.Attribute) and c.func.attr == "append" and isinstance(c.func.value, ast.Name)}
+
+        for la in loopsA:
+            for lb in loopsB:
+                if appended(la) & appended(lb):
+                    uses.append(la)
+        if not uses:
+            continue
+        cfg = cfg_of(fi)
+        revs = nodes_where(cfg, lambda c: isinstance(c, ast.Call) and isinstance(c.func, ast.Attribute) and c.func.attr == "reverse" and isinstance(c.func.value, ast.Name) and c.func.value.id == A)
+        for u in uses:
+            un = next((x for x in cfg.nodes if x.stmt is u or (x.ast is not None and any(y is u for y in ast.walk(x.ast)))), None)
+            ok = un is not None and bool(revs) and cfg.dominated(un, revs)
+            rr.inst(f"{short(fi)}: {norm(u, 40)}", True, {"method": short(fi), "screen_order_use": norm(u, 70), "reversed_first": ok})
+            if not ok:
+                rr.add(finding("SIB", fi, u, f"`{norm(u, 60)}` lays out `{A}`, the focus and `{B}` in screen order but `{A}` is still in the bottom-up order calculate_visible() reports it in (no `{A}.reverse()` before): with two or more children above the focus the rows are attributed to the wrong children - render() draws child #0 on the top row, this method takes it for the child next to the focus", construct=f"{A} used in screen order without reverse()"))
+    return rr
+
+
 def run(ctx: Ctx):
     p = ctx.p
     return [
@@ -535,6 +584,7 @@ def run(ctx: Ctx):
         _empty_guard(ctx),
         accum.run_accum(p, "C09.9", "C09", floor=3),
         rule_edit_row_range(ctx),
+        rule_visible_order(ctx),
         alias.run_inplace_own(p, "C09.15", ["urwid.canvas"], floor=6, exempt={"shards": "shared on purpose, copy-on-write decided by FRESHLIST (C06.2c)"}),
         optcall.run_optcall(p, "C09.11", ("urwid.widget",), floor=35),
         rule_hidden_columns(ctx),
@@ -551,6 +601,8 @@ _PIL = "urwid/widget/pile.py"
 _COL = "urwid/widget/columns.py"
 _BOX = "urwid/widget/box_adapter.py"
 MUTANTS = [
+    Mut("listbox-mouse-fill-above-not-reversed", "urwid/widget/listbox.py", "ListBox.mouse_event", "        fill_above.reverse()  # fill_above is in bottom-up order\n", "", "SIB|widget.listbox.ListBox.mouse_event|fill_above used in screen order without reverse()"),
+    Mut("listbox-render-fill-above-not-reversed", "urwid/widget/listbox.py", "ListBox.render", "        fill_above.reverse()  # fill_above is in bottom-up order\n", "", "SIB|widget.listbox.ListBox.render|fill_above used in screen order without reverse()", error_ok=True),
     Mut("frame-keypress-own-body-height", "urwid/widget/frame.py", "Frame.keypress", "        (htrim, ftrim), _orig = self.frame_top_bottom((maxcol, maxrow), True)\n        remaining = maxrow - htrim - ftrim\n", "        remaining = maxrow\n        if self.header is not None:\n            remaining -= self.header.rows((maxcol,))\n        if self.footer is not None:\n            remaining -= self.footer.rows((maxcol,))\n", "GEOM|widget.frame.Frame.keypress"),
     Mut("frame-keypress-forgets-footer", "urwid/widget/frame.py", "Frame.keypress", "        remaining = maxrow - htrim - ftrim\n", "        remaining = maxrow - htrim\n", "GEOM|widget.frame.Frame.keypress"),
     Mut("padding-fixed-click-not-hit-tested", _PAD, "Padding.mouse_event", "            if col < left or col >= left + width:\n                return False\n", "", "GUARD|widget.padding.Padding.mouse_event"),
